@@ -17,7 +17,7 @@ only caller).  The validators used to compare source *text*; this module decides
 from __future__ import annotations
 
 import ast
-from typing import Dict, FrozenSet, List, Optional, Set, Tuple
+from typing import Dict, FrozenSet, List, Optional, Set
 
 from .cfg import cfg_of
 from .dataflow import reaching_definitions
